@@ -51,7 +51,7 @@ Definition zone_ok (z : zone) : bool :=
 
 (* type equivalence as EquivTransitions computes it *)
 Definition eqv_types (z : zone) (a b : Z) : bool :=
-  match equiv_transitions (z_types z) a b with OK r => r | Err _ => false end.
+  match equiv_transitions (z_abbrs z) (z_types z) a b with OK r => r | Err _ => false end.
 
 (* info of a type *)
 Definition info_of (z : zone) (i : Z) : res (bool * list Z) :=
